@@ -108,12 +108,12 @@ def main():
         S = rng.choice([1, 2])
         online = rng.random() < 0.4
         ops = ["not", "and", "or", "implies", "once", "hist", "since", "onceT", "histT"] + ([] if online else ["ev", "alw", "until", "evT", "alwT", "untilT"])
-        delays_only = online and rng.random() < 0.6      # bounded operators as pure delays [d,d]: reliable under chunking
+        delays_only = online and rng.random() < 0.3      # bounded operators as pure delays [d,d] (what pastify() inserts)
         g = Gen(rng, vars_=rng.choice([("x",), ("x", "y")]), S=S, ops=ops, ivs=([(1, 1), (2, 2)] if delays_only else [(0, 1), (1, 2), (0, 3)]),
                 bool_atoms=True)
         for _ in range(30):
             phi = g.formula(rng.choice([2, 2, 3]))
-            if vars_of(phi) and not any(q["op"] in BIN2 and not vars_of(q) for q in subformulas(phi)):
+            if vars_of(phi):
                 break
         else:
             continue
@@ -136,7 +136,7 @@ def main():
         act = "update" if online else "evaluate"
         evs = [ev_parse(k + 1) for k in range(len(objs))]
         rels = []
-        multi = online and (delays_only or not (ops_of(phi) & TIMED)) and rng.random() < 0.7
+        multi = online and rng.random() < 0.7
         if multi:
             # several update() calls (a partition of the signals); get_value after each one
             import c05 as _c05
